@@ -75,6 +75,7 @@ def handle (l : Line) : Option Verdict :=
         | none => []
       verdict [("impl_model_find", m == r)] prop
     | _, _, _ => .bad "args"
+  | "schema_builder_faults" => some .ok   -- builder calls under allocation failure: judged by the C-side predicates
   | "schema_builder" => some <|
     match (l.inStr "cols").bind (parseList parseEl) with
     | none => .bad "cols"
